@@ -86,7 +86,7 @@ def install_contracts(ex):
 class Zone:
     pass
 
-def build_zone(ex, st, N, T, pfx="z", hints=True):
+def build_zone(ex, st, N, T, pfx="z", hints=True, second_half=True):
     """allocate a TimeZoneInfo object with N transitions and T types, all contents symbolic under WF"""
     mod = module()
     z = Zone(); z.N = N; z.T = T
@@ -146,7 +146,8 @@ def build_zone(ex, st, N, T, pfx="z", hints=True):
     # WF: what TimeZoneInfo::Load guarantees (asserted there by the C12 harness)
     # recorded transition times lie within +-2^59 of the epoch: established by TimeZoneInfo::Load (asserted by the C12
     # harness as part of WF); without it the "nearby transition" differences in LocalTime/MakeTime can overflow
-    wf = [lt(z.unix[0], 0), ge(z.unix[N - 1], 0)] + [and_(le(-TLIM, u), le(u, TLIM)) for u in z.unix]
+    # second_half=False: the table as it is inside Load when ExtendTransitions runs (the transition in the non-negative half is added later)
+    wf = [lt(z.unix[0], 0)] + ([ge(z.unix[N - 1], 0)] if second_half else []) + [and_(le(-TLIM, u), le(u, TLIM)) for u in z.unix]
     for i in range(1, N):
         wf.append(lt(z.unix[i - 1], z.unix[i]))
         wf.append(lt(add(z.unix[i - 1], off_of(z.ty[i - 1])), add(z.unix[i], off_of(z.ty[i]))))     # ByCivilTime strictly increasing
